@@ -161,3 +161,66 @@ Fixpoint chain_at (rd : reader) (size : Z) (a : Z) (blocks : list iobuf_block) :
 
 Definition chain_text (blocks : list iobuf_block) : list Z :=
   flat_map (fun b => firstn (Z.to_nat (b_length b)) (b_payload b)) blocks.
+
+(* ------------------------------------------------------------------------------------------------ *)
+(* the per-core status block (vcpu_t of sark.h, 128 bytes, little-endian), as get_processor_status   *)
+(* must report it: the values in the order of ProcessorStatus' fields, each as a list                *)
+
+Definition SV_VCPU_BASE : Z := 204.            (* sv->vcpu_base, uint32 at 0xcc *)
+Definition VCPU_SIZE : Z := 128.
+
+Definition u32_at (d : list Z) (o : nat) : Z := le_decode (firstn 4 (skipn o d)).
+Definition u16_at (d : list Z) (o : nat) : Z := le_decode (firstn 2 (skipn o d)).
+Definition u8_at (d : list Z) (o : nat) : Z := le_decode (firstn 1 (skipn o d)).
+
+Definition status_truth (d : list Z) : list (list Z) :=
+  [ [u32_at d 0; u32_at d 4; u32_at d 8; u32_at d 12; u32_at d 16; u32_at d 20; u32_at d 24; u32_at d 28];  (* r0..r7 *)
+    [u32_at d 32];                 (* psr *)
+    [u32_at d 36];                 (* sp *)
+    [u32_at d 40];                 (* lr *)
+    [u8_at d 44];                  (* rt_code *)
+    [u8_at d 45];                  (* phys_cpu *)
+    [u8_at d 46];                  (* cpu_state *)
+    [u32_at d 48];                 (* mbox_ap_msg *)
+    [u32_at d 52];                 (* mbox_mp_msg *)
+    [u8_at d 56];                  (* mbox_ap_cmd *)
+    [u8_at d 57];                  (* mbox_mp_cmd *)
+    [u16_at d 58];                 (* sw_count *)
+    [u32_at d 60];                 (* sw_file *)
+    [u32_at d 64];                 (* sw_line *)
+    [u32_at d 68];                 (* time *)
+    strip0 (firstn 16 (skipn 72 d));   (* app_name without its NUL padding *)
+    [u32_at d 88];                 (* iobuf *)
+    [u8_at d 47];                  (* app_id *)
+    [(u32_at d 92 / 65536) mod 256; (u32_at d 92 / 256) mod 256; u32_at d 92 mod 256];   (* sw_ver *)
+    [u32_at d 112; u32_at d 116; u32_at d 120; u32_at d 124] ].                          (* user0..3 *)
+
+Definition rte_codes_max : Z := 20.            (* RuntimeException: 0 .. 20 *)
+
+Definition status_block_valid (d : list Z) : Prop :=
+  length d = 128%nat /\ Forall is_byte d /\
+  In (u8_at d 46) app_states /\ 0 <= u8_at d 44 <= rte_codes_max /\
+  is_ascii (strip0 (firstn 16 (skipn 72 d))) = true.
+
+(* ------------------------------------------------------------------------------------------------ *)
+(* the reply to CMD_VER (sver), in its two encodings                                                  *)
+
+Definition ascii_text (s : list Z) : Prop := Forall (fun c => 0 < c < 128) s.     (* ASCII, no NUL *)
+Definition digits (d : list Z) : Prop := d <> [] /\ Forall (fun c => 48 <= c <= 57) d.
+(* what may follow the three numbers: nothing, or text that does not start with a digit; no newline *)
+Definition labels_ok (l : list Z) : Prop :=
+  ascii_text l /\ ~ In 10 l /\ match l with [] => True | c :: _ => c < 48 \/ 57 < c end.
+
+Definition sver_arg1 (x y pcpu vcpu : Z) : Z := (256 * x + y) * 65536 + 256 * pcpu + vcpu.
+
+(* legacy: arg2 = (100 * major + minor) << 16 | buffer size; data = name, NUL *)
+Definition encode_sver_legacy (x y pcpu vcpu major minor buf date : Z) (name : list Z) : reply :=
+  mkReply (sver_arg1 x y pcpu vcpu) ((100 * major + minor) * 65536 + buf) date (name ++ [0]).
+
+(* semantic versions: arg2 = 0xffff << 16 | buffer size; data = name, NUL, "major.minor.patch" labels, NUL *)
+Definition encode_sver_semver (x y pcpu vcpu buf date : Z) (name d1 d2 d3 labels : list Z) : reply :=
+  mkReply (sver_arg1 x y pcpu vcpu) (65535 * 65536 + buf) date
+          (name ++ 0 :: (d1 ++ 46 :: d2 ++ 46 :: d3 ++ labels) ++ [0]).
+
+Definition sver_header_valid (x y pcpu vcpu buf : Z) : Prop :=
+  is_byte x /\ is_byte y /\ is_byte pcpu /\ is_byte vcpu /\ 0 <= buf < 65536.
